@@ -125,6 +125,10 @@ func c20Conn(t *Tape, sc *Scenario, idx int, pat int) (ConnScript, ConnBackendPl
 		cs.IdleEnd = 20 * time.Minute
 	}
 	cp.LogoutErr = t.Chance(1, 4)
+	if t.Chance(1, 10) {
+		// a Logout that panics: under Server.Close it runs with both mutexes held
+		cp.PanicLogout = true
+	}
 	if t.Chance(1, 8) {
 		// Reset is the one callback made with Conn.locker held: a panic in it is recovered by
 		// the command loop, which then closes the connection - under the same mutex
@@ -455,6 +459,12 @@ func classifyC20(sc *Scenario, h *History, st *Stats) string {
 			}
 		}
 	}
+	for _, e := range h.Events {
+		if e.Kind == "Logout" && e.Panicked {
+			st.Probes["backend_panics_in_Logout"]++
+			break
+		}
+	}
 	for i := range evs {
 		if evs[i].Kind == "Reset" && evs[i].Panicked {
 			st.Probes["backend_panics_in_Reset_under_the_connection_mutex"]++
@@ -479,7 +489,7 @@ func classifyC20(sc *Scenario, h *History, st *Stats) string {
 func init() {
 	register(&Property{
 		ID: "C20", Level: "exploration", Race: true,
-		Rule:     "1-3 connections, each running one of seven transfer patterns (chunk-RSET-chunk with slow stale deliveries, LMTP DATA with parked statuses, QUIT or disconnect inside a chunked transfer, two DATA transactions, idle) with drawn pauses between steps, plus 0-3 Server.Close / Shutdown(ctx with a fake deadline of 0, 2ms, 50ms, 1s) calls at drawn instants - overlapping through the VerifYield hook in half of the multi-call runs - and scripted temporary/permanent Accept errors and a failing listener Close. Every scenario runs twice: in the plain build (deadlock, leak, linearizability of Close/Shutdown against an open->closed register with porcupine, Serve's result, Shutdown's waiting) and in a -race build where the Go race detector is the oracle. Distinct by (patterns, admin calls, yield, event shape); every case is non-trivial. A reply write blocked by a peer that does not read (for ever, 3 ms, 30 s) while Close/Shutdown run; a backend whose Logout fails; a backend whose n-th Reset panics (with Conn.locker held).",
+		Rule:     "1-3 connections, each running one of seven transfer patterns (chunk-RSET-chunk with slow stale deliveries, LMTP DATA with parked statuses, QUIT or disconnect inside a chunked transfer, two DATA transactions, idle) with drawn pauses between steps, plus 0-3 Server.Close / Shutdown(ctx with a fake deadline of 0, 2ms, 50ms, 1s) calls at drawn instants - overlapping through the VerifYield hook in half of the multi-call runs - and scripted temporary/permanent Accept errors and a failing listener Close. Every scenario runs twice: in the plain build (deadlock, leak, linearizability of Close/Shutdown against an open->closed register with porcupine, Serve's result, Shutdown's waiting) and in a -race build where the Go race detector is the oracle. Distinct by (patterns, admin calls, yield, event shape); every case is non-trivial. A reply write blocked by a peer that does not read (for ever, 3 ms, 30 s) while Close/Shutdown run; a backend whose Logout fails; a backend whose n-th Reset panics (with Conn.locker held); a backend whose Logout panics (under Server.Close: with both mutexes held).",
 		Gen:      genC20,
 		Check:    checkC20,
 		Classify: classifyC20,
@@ -499,7 +509,7 @@ func init() {
 		Real:        []string{"smtp.Server Serve/handleConn/Close/Shutdown", "smtp.Conn (every handler, Close, reset)", "BDAT and LMTP delivery goroutines", "io.Pipe", "sync primitives of the library", "Go race detector (second build)"},
 		Stub:        []string{"net.Listener (SimListener with scripted Accept errors)", "net.Conn (SimConn)", "Backend (SimBackend; sync-silent after a park so that it adds no happens-before edge)", "clock (synctest)", "SMTP clients (raw drivers)", "VerifYield hook (build tag verif) between the test and the closing of Server.done"},
 		Assumptions: []string{"the simulation cannot block a goroutine that holds a mutex (the fake clock would stop): a write without a deadline issued while Conn.locker is held is reported as the deadlock it is for a peer that does not read; the mutex is probed through a guarded hook, never in the race-detector build", "interleavings are controlled at blocking points and at the two yield hooks only; the race detector covers memory-level races inside straight-line stretches", "a porcupine timeout is inconclusive and never reported"},
-		Required:    []string{"callback_overlaps_running_delivery", "close_shutdown_overlap_via_yield_hook", "command_loop_parks_at_yield_points", "connection_closed_by_Server.Close", "second_close_or_shutdown", "serve_started_after_close", "shutdown_context_expired", "accept_permanent", "accept_temporary", "reply_write_failed", "silent_peer", "silent_peer_stalls_the_implicit_TLS_handshake", "reply_write_blocked_peer_not_reading", "starttls_upgrade_completed", "connection_goroutine_parked_before_registering", "backend_panics_in_Reset_under_the_connection_mutex"},
+		Required:    []string{"callback_overlaps_running_delivery", "close_shutdown_overlap_via_yield_hook", "command_loop_parks_at_yield_points", "connection_closed_by_Server.Close", "second_close_or_shutdown", "serve_started_after_close", "shutdown_context_expired", "accept_permanent", "accept_temporary", "reply_write_failed", "silent_peer", "silent_peer_stalls_the_implicit_TLS_handshake", "reply_write_blocked_peer_not_reading", "starttls_upgrade_completed", "connection_goroutine_parked_before_registering", "backend_panics_in_Reset_under_the_connection_mutex", "backend_panics_in_Logout"},
 		Instr:       true,
 		QuickRuns:   10000, ThoroughRuns: 800000,
 	})
